@@ -1376,6 +1376,15 @@ func (c *FnCtx) numberLoops(body ast.Node) {
 		}
 		return true
 	})
+	// fewer call sites of some callee than on the recorded tree: code was removed from the function or replaced (e.g. by
+	// a call of a new helper) - together with a lost loop the sign that a contract-less helper may hold extracted code
+	if len(c.inlineStack) == 0 {
+		for name, cnt := range c.eng.callLock[c.fi.Key] {
+			if calls[name] < cnt {
+				c.loopsLost = true
+			}
+		}
+	}
 }
 
 func (c *FnCtx) calleeShort(call *ast.CallExpr) string {
